@@ -86,6 +86,14 @@ def corruptions(v, p, version, name):
         out += [("bad-syntax", "Type"), ("addresses-nothing", "zzz-absent")]
     if k == "openvocab":
         out.append(("empty-string", ""))
+    # a valid spelling followed by a line feed ('$' in a regular expression also matches before a final newline)
+    if isinstance(v, str) and k in ("id", "ref", "timestamp", "enum", "hex", "selector", "objref") or (isinstance(v, str) and "fixed" in p):
+        out.append(("trailing-newline", v + "\n"))
+    if k in ("dictionary", "hashes") and isinstance(v, dict) and v:
+        k0 = next(iter(v))
+        out.append(("key-trailing-newline", dict([(k0 + "\n", v[k0])] + [(a, b) for a, b in v.items() if a != k0])))
+        if isinstance(v[k0], str) and k == "hashes":
+            out.append(("value-trailing-newline", dict(v, **{k0: v[k0] + "\n"})))
     return out
 
 
